@@ -216,6 +216,10 @@ Holds(e, name) ==
     [] name = "C17_LinearDiff" -> C17_MatLinear(MatOf(o.Mdiff), MatOf(o.Lin.Mdiff2), MatOf(o.Lin.Mdiff12), cf.lam, cf.mu)
     [] name = "C17_LinearConv" -> C17_MatLinear(MatOf(o.Mconv), MatOf(o.Lin.Mconv2), MatOf(o.Lin.Mconv12), cf.lam, cf.mu)
     [] name = "C17_LinearUp"   -> C17_MatLinear(MatOf(o.Mupalt), MatOf(o.Lin.Mup2), MatOf(o.Lin.Mup12), cf.lam, cf.mu)
+    [] name = "C17_LinearTvd"  ->      \* the TVD correction is linear in u at fixed upwind direction and field
+         \A k \in DOMAIN o.tvdnamed : \A c \in Interior(g) :
+            FieldOf(g, o.Lin.tvd12[k])[c] =
+               RAdd(RMul(cf.lam, FieldOf(g, o.tvdnamed[k])[c]), RMul(cf.mu, FieldOf(g, o.Lin.tvd2[k])[c]))
     [] name = "C17_LinearSrc"  -> C17_MatLinear(MatOf(o.Msrc), MatOf(o.Lin.Msrc2), MatOf(o.Lin.Msrc12), cf.lam, cf.mu)
     [] name = "C05_TvdZero" -> VecZero(g, FieldOf(g, o.tvd0))
     [] name = "C05_TvdUnit" ->
